@@ -1,7 +1,7 @@
 (* SI/Props.v — theorems of property C01 (snapshot isolation and external consistency), over the MVCC store
    model Mvcc/Model.v ([step], [run]) for ALL command sequences obeying the timestamp discipline [oracle_ts]
    (Mvcc/Spec.v), plus an abstract event order for external consistency. Definitions: SI/Model.v. *)
-From Verif Require Import SI.Model SI.ProofsTrans SI.ProofsRead SI.ProofsKeyed SI.AsyncStore SI.TwoPC SI.ProofsWW SI.ProofsIns SI.ProofsInsPoint SI.ProofsExt SI.ProofsOracle.
+From Verif Require Import SI.Model SI.ProofsTrans SI.ProofsRead SI.ProofsKeyed SI.AsyncStore SI.TwoPC SI.ProofsWW SI.ProofsIns SI.ProofsInsPoint SI.ProofsLockRead SI.ProofsExt SI.ProofsOracle.
 
 (* ---- 1. reads are a function of the committed history restricted to commit ts <= read ts *)
 (* a point get on any reachable store answers either the history read at its read ts (at [eff_ts], which is the
@@ -95,6 +95,35 @@ Theorem C01_lock_point_optimistic : forall cmds k s, no_pess cmds = true -> lock
 Proof. exact lock_point_opt. Qed.
 Print Assumptions C01_lock_point_optimistic.
 
+(* locking reads: a successful pessimistic lock request with return_values answers, key by key and in order,
+   [lock_answer]: not forced - the history read at the for-update ts (an empty Put value reads as none) with its existence
+   flag; forced (fair locking) with a record above the for-update ts - the newest committed value together with the
+   conflict ts (the commit ts of the newest record, > for-update ts: LockedWithConflictTS) *)
+Theorem C01_locking_read : forall cmds r rs,
+  p_return_values r = true -> snd (step (run cmds) (PessLock r)) = RPess [] rs ->
+  rs = map (fun kb => lock_answer (writes_of (run cmds) (fst kb)) r) (p_keys r) /\
+  (p_force r = false -> forall kb, In kb (p_keys r) ->
+     lock_answer (writes_of (run cmds) (fst kb)) r =
+     PRNormal (nonempty (hist_read (history (run cmds) (fst kb)) (p_for_update r)))
+              (is_some (nonempty (hist_read (history (run cmds) (fst kb)) (p_for_update r))))).
+Proof. exact locking_read. Qed.
+Print Assumptions C01_locking_read.
+
+(* ... and the lock then excludes other commits: in every reachable store a record of another transaction that is older
+   than the owner's commit is older than the owner's lock point - nothing else commits on the key in
+   [lock point, owner's commit); while the pessimistic lock is held the lock point is its for-update ts *)
+Theorem C01_lock_excludes_commits : forall cmds, oracle_ts cmds = true -> ww_discipline cmds = true ->
+  forall k w1 w2, In w1 (writes_of (run cmds) k) -> In w2 (writes_of (run cmds) k) ->
+    is_rollback w1 = false -> is_rollback w2 = false -> w_start w1 <> w_start w2 -> w_commit w1 < w_commit w2 ->
+    w_commit w1 < lock_point cmds k (w_start w2).
+Proof. exact lock_excludes. Qed.
+Print Assumptions C01_lock_excludes_commits.
+
+Theorem C01_lock_point_pessimistic : forall cmds c k l, lock_of (run (cmds ++ [c])) k = Some l -> is_pess l = true ->
+  lock_point (cmds ++ [c]) k (l_start l) = l_for_update l.
+Proof. exact lock_point_pess. Qed.
+Print Assumptions C01_lock_point_pessimistic.
+
 (* ---- 3. insert semantics *)
 Theorem C01_insert_semantics :
   (forall st ms p s ttl mc ao m vc,
@@ -184,6 +213,12 @@ Example ex_read : get (run (firstn 2 ex_cmds)) 1 (T 5) [] = RGet (Some (17, T 3)
 Proof. vm_compute. repeat split. Qed.
 Example ex_ww : writes_of (run ex_cmds) 1 = [mkWrite WPut (T 2) (T 8) 33; mkWrite WPut (T 1) (T 3) 17]
   /\ lock_point ex_cmds 1 (T 2) = T 6 /\ lock_point ex_cmds 1 (T 1) = T 1 /\ T 3 < T 6.
+Proof. vm_compute. repeat split. Qed.
+Example ex_locking_read :
+  snd (step (run (firstn 3 ex_cmds)) (nth 3 ex_cmds (GC 0 0 0))) = RPess [] [PRNormal (Some 17) true]
+  /\ snd (step (run (firstn 3 ex_cmds)) (PessLock (mkPessReq [(1, false); (2, false)] 1 (T 2) (T 2) 3 0 true false false true true)))
+     = RPess [] [PRConflict (Some 17) true (T 3); PRNormal None false]                  (* forced: conflict ts 3 > for-update ts 2 *)
+  /\ lock_point (firstn 4 ex_cmds) 1 (T 2) = T 6.
 Proof. vm_compute. repeat split. Qed.
 Example ex_insert : snd (step (run (firstn 8 ex_cmds)) (nth 8 ex_cmds (GC 0 0 0))) = RErrs [None]
   /\ step (run (firstn 10 ex_cmds)) (nth 10 ex_cmds (GC 0 0 0)) = (run (firstn 10 ex_cmds), RErrs [Some (EAlreadyExist 1)]).
